@@ -237,6 +237,22 @@ def shard(ctx):
                     else:
                         ctx.res.distinct.add(("plain-files", nr, nd, r["code"]))
                 check_events(ctx, r.get("events") or [], nr * nd, case, "plain")
+            # console summary (`--show-summary all`): the status printed in the header of every (rules, data) block is that pair's own status
+            if not (blank is not None and blank is not False):
+                rc_ = ctx.w.run({"k": "cli", "argv": ["validate"] + rargs + dargs + IT + ["-S", "all"], "files": fl})
+                ctx.res.cases += 1
+                if rc_.get("r") == "ok":
+                    heads = re.findall(r"^.* Status = (PASS|FAIL|SKIP)\s*$", re.sub(r"\x1b\[[0-9;]*m", "", rc_["out"]), re.M)
+                    try:
+                        exp_h = [json.loads(single_s[(i, j)][0]).get("status") for i in a for j in b]
+                    except (ValueError, KeyError):
+                        exp_h = None
+                    if exp_h is not None and len(heads) == len(exp_h):
+                        ctx.res.counts["console_block_headers_compared"] += len(heads)
+                        if heads != exp_h:
+                            ctx.violation("plain-console:block-status", "the summary headers of the batch read %s, the pairs validated alone are %s" % (heads, exp_h), dict(base_case, mode="plain-console", order=[a, b]))
+                        else:
+                            ctx.res.distinct.add(("plain-console", tuple(sorted(set(heads)))))
             # structured mode: one report per data file = union over the rules files
             r = ctx.w.run({"k": "cli", "argv": ["validate"] + rargs + dargs + IT + ["--structured", "-S", "none", "-o", "json"], "files": fl, "events": True})
             ctx.res.cases += 1
